@@ -310,7 +310,7 @@ func (r *Runner) Run(nsteps int) {
 			r.removedKeys[key] = true
 			r.logf("StateCache.Remove(%s)", key)
 		default:
-			if len(t.Blocks) > 100 && gen.Chance(r.RT, 90, "holdlookups") {
+			if len(t.Blocks) > 256 || len(t.Blocks) > 100 && gen.Chance(r.RT, 90, "holdlookups") {
 				continue // very long quiet chains: hardly any lookup before everything is committed, so no remembered answers shorten the walks
 			}
 			r.lookup(running)
@@ -333,6 +333,18 @@ func (r *Runner) Run(nsteps int) {
 			progress = true
 			if len(t.Blocks) <= 100 {
 				r.lookup(nil)
+			}
+		}
+	}
+	if len(t.Blocks) > 256 {
+		// very long chains: at each of the last blocks every key is asked in turn, forwards and backwards (what one key's
+		// long walk leaves behind must not change another key's answer)
+		for bi := len(t.Blocks) - 1; bi >= len(t.Blocks)-4 && bi >= 0; bi-- {
+			for i := range t.Keys {
+				r.lookupState(t.Keys[i], t.Blocks[bi].Hash, false)
+			}
+			for i := len(t.Keys) - 1; i >= 0; i-- {
+				r.lookupState(t.Keys[i], t.Blocks[bi].Hash, i%2 == 0)
 			}
 		}
 	}
@@ -481,6 +493,9 @@ func (r *Runner) tryCommit(lb *liveBlock) bool {
 		r.logf("%s SetBlockHash", lb.decl.Hash)
 		// what the block cache answers must not depend on the name it carries: ask right away
 		for _, key := range r.Tree.Keys {
+			if len(r.Tree.Blocks) > 256 {
+				break // very long chains: no lookup before everything is committed (remembered answers would shorten the walks)
+			}
 			r.lookupBlock(lb, key)
 		}
 		if gen.Chance(r.RT, 50, "hashthenlater") {
